@@ -288,6 +288,8 @@ def s_offset(E, a, info):
     p, off = a
     if not isinstance(off, OffsetTok):
         raise Unsupported('offset by %r' % (off,))
+    if getattr(off, 'tag', None):
+        raise UB('layout-assumption', 'a field offset computed for %s is applied to a pointer into an RcBox<T>: the two layouts differ when T is over-aligned' % off.tag)
     sign = off.sign
     if info['key'].endswith('sub'):
         sign = -sign
@@ -301,6 +303,14 @@ def s_offset(E, a, info):
             raise UB('bad-offset', 'pointer %r moved back by the offset of %r' % (p, off.path))
         return Ptr(p.obj, p.path[:-n])
     return Ptr(p.obj, p.path + off.path)
+
+
+@summ('offset_of', 'core::intrinsics::offset_of', 'core::mem::offset_of')
+def s_offset_of(E, a, info):
+    ty = info['gen'][0] if info['gen'] else '?'
+    field = a[1] if len(a) > 1 else a[0]
+    tag = None if ty.replace(' ', '') in ('RcBox<T>', 'rc::RcBox<T>') else ty
+    return OffsetTok((field,), 1, tag)
 
 
 @summ('core::mem::size_of_val', 'core::mem::size_of', 'core::mem::align_of_val', 'core::mem::align_of')
